@@ -480,6 +480,15 @@ def podStep (kind n : Nat) (s : ByteArray) (op : String) (args : List Int) : Opt
     match Pod.load n s with
     | .ok v => some (s, "x" ++ hexBA v)
     | .error e => some (s, faultStr e)
+  | "viewmis", [] =>
+    -- the same bytes at offsets 0..7 past an 8-byte boundary: a view of the first `n` bytes where the inner type's
+    -- alignment (4 for the `u32` wrapper, 1 otherwise) admits the address, a refusal elsewhere / when too short
+    let align := if kind = 4 then 4 else 1
+    let one := fun (off : Nat) =>
+      match Pod.load n s with
+      | .ok v => if off % align = 0 then "x" ++ hexBA v else "refused"
+      | .error _ => "refused"
+    some (s, ",".intercalate ((List.range 8).map one))
   | "setb", [b] =>
     match Pod.storeMut 1 s ⟨#[Pod.boolEncode (b != 0)]⟩ with
     | .ok s' => some (s', "-")
